@@ -84,7 +84,57 @@ def ret(h, o):
         f.__annotations__ = {'return': h()}
         return _bt(f)(o()) is not None or True
     return _ans(build)
+# context-dependent hints: the same spelling means different things in different scopes
+import sys as _sys, types as _types, typing as _typing
+for _m in ('c14_scope1', 'c14_scope2'):
+    _mod = _types.ModuleType(_m)
+    exec("class Node:\n    pass\nclass Leaf(Node):\n    pass\n", _mod.__dict__)
+    _sys.modules[_m] = _mod
+def callm(m, h, o, c='CONF0'):
+    # a function of module m whose parameter hint (may hold the relative reference "Node") is checked against o(module)
+    def build():
+        def f(a): return None
+        f.__module__ = m
+        f.__annotations__ = {'a': h()}
+        return _bt(conf=_conf(c))(f)(o(_sys.modules[m]))
+    return _ans(build)
+def selfm(name, h, o):
+    # a fresh decorated class whose method hint mentions typing.Self, checked against o(that class)
+    def build():
+        class C:
+            def m(self, a): return None
+        C.__name__ = C.__qualname__ = name
+        C.m.__qualname__ = name + '.m'
+        C.m.__annotations__ = {'a': h()}
+        C = _bt(C)
+        return C().m(o(C))
+    return _ans(build)
+Self = _typing.Self
+# homonyms: distinct hints / classes that print alike
+from typing import TypeVar, NewType
+TVI, TVS = TypeVar('T', bound=int), TypeVar('T', bound=str)
+NTI, NTS = NewType('N', int), NewType('N', str)
+R1, R2 = type('Rec', (), {'__module__': 'vlib.hintenv'}), type('Rec', (), {'__module__': 'vlib.hintenv'})
 '''
+
+# (hint, an object satisfying it) - N stands for the scope's own class: M.Node for a module scope M, the decorated class
+# itself for typing.Self
+SCOPED = [('N', 'N()'), ('tuple[N, int]', '(N(), 1)'), ('tuple[int, N]', '(1, N())'), ('list[N]', '[N()]'), ('dict[str, N]', '{"a": N()}'),
+          ('Optional[N]', 'N()'), ('Union[N, int]', 'N()'), ('tuple[N, ...]', '(N(),)'), ('tuple[N, N]', '(N(), N())'),
+          ('dict[N, int]', '{N(): 1}'), ('tuple[list[N], str]', '([N()], "s")'), ('tuple[N, list[int]]', '(N(), [1])'),
+          ('Union[list[N], int]', '[N()]'), ('tuple[Optional[N], str]', '(N(), "s")')]
+SCOPED_BAD = ['1', 'None', '(object(), 1)', '[object()]', '(1, 2)', '{"a": 1}', '"s"']
+
+
+def scoped_query_src(rng, focus=None):
+    hint, good = focus or rng.choice(SCOPED)
+    obj = good if rng.random() < .65 else rng.choice(SCOPED_BAD + [g for _, g in SCOPED])
+    if rng.random() < .55:
+        m = rng.choice(('c14_scope1', 'c14_scope2'))
+        c = rng.choice(('CONF0', 'CONF0', 'CONF_NONRANDOM'))
+        obj = obj.replace('N()', rng.choice(('M.Node()', 'M.Node()', 'M.Leaf()')))
+        return f'callm({m!r}, lambda: {hint.replace("N", chr(34) + "Node" + chr(34))}, lambda M: {obj}, {c!r})'
+    return f'selfm({rng.choice(("S1", "S2", "S3"))!r}, lambda: {hint.replace("N", "Self")}, lambda M: {obj.replace("N()", "M()")})'
 
 NS_OPS = {
     # namespace operations: plain Python, no beartype call; they are part of the *arguments* of later queries
@@ -116,10 +166,19 @@ FAMILIES = {
               ['1', '1.0', 'True', '[1]', '[1.0]', '{"a": 1}', '(1,)', '"a"', '1j']),
     'lattice': (['A', 'B', 'type[A]', 'type[B]', 'TB', 'TC', 'NTInt', 'NTA', 'AliasInt', 'AliasListInt', 'list[A]', 'list[B]'],
                 ['A()', 'B()', 'A', 'B', '1', '"a"', '[A()]', '[B()]', '[1]']),
+    # distinct hints that print alike (typing generics only: PEP 585 hints over same-named classes are the known
+    # repr() de-duplication finding, exercised by 'redefine')
+    'homonyms': (['TVI', 'TVS', 'NTI', 'NTS', 'List[R1]', 'List[R2]', 'Optional[R1]', 'Optional[R2]', 'List[TVI]', 'List[TVS]',
+                  'Union[R1, int]', 'Union[R2, int]', 'int', 'str', 'R1', 'R2'],
+                 ['1', '"a"', 'R1()', 'R2()', '[R1()]', '[R2()]', '[1]', '["a"]', 'None']),
+    # relative forward references in two module scopes and typing.Self in several classes (scoped_query_src)
+    'scoped': ([], []),
 }
 
 
 def query_src(rng, family=None):
+    if family == 'scoped':
+        return scoped_query_src(rng)
     hs, os_ = FAMILIES[family] if family else (HINTS, OBJS)
     form = rng.choice(('ib', 'ib', 'ib', 'die', 'sub', 'theq', 'thsub', 'call', 'call', 'ret'))
     h = rng.choice(hs)
@@ -246,11 +305,34 @@ def main():
             W.count('reference_forks')
         return ref_cache[key]
 
+    # interventions used to attribute a deviation to a known mechanism (see the classification below)
+    PIN_WRAPPERS = ('import beartype.door._cls.doormeta as _dm\n_PINNED = []\n_orig_call = _dm._TypeHintMetaclass.__call__\n'
+                    'def _pinning_call(cls, hint):\n    w = _orig_call(cls, hint)\n    _PINNED.append(w)\n    return w\n'
+                    '_dm._TypeHintMetaclass.__call__ = _pinning_call\n')     # no wrapper ever dies: no id() is reused
+    UNDO_REPR_DEDUP = ('from beartype._check.convert import _convcoerce as _cc\n'
+                       '_cc._hint_repr_to_hint._key_to_value.clear()\n')      # forget hints de-duplicated by repr()
+
+    def explained(steps, pos_in_steps, want, at_start=None, before_query=None):
+        st = list(steps[:pos_in_steps + 1])
+        if before_query:
+            st.insert(pos_in_steps, ('noise', before_query))
+        if at_start:
+            st.insert(0, ('noise', at_start))
+        ans = run_in_child(st)
+        W.count('intervention_forks')
+        ok = bool(ans) and ans[-1] == want
+        W.count('deviations_explained_by_intervention' if ok else 'deviations_not_explained_by_intervention')
+        return ok
+
     def build(rng):
         n = rng.choice((5, 8, 12, 20, 40)) if quick else rng.choice((5, 12, 40, 100, 200))
         steps, ns_ops, redefs = [], [], 0
         family = rng.choice(list(FAMILIES))
         local = rng.sample(pools[family], 5)     # asked again and again, before and after namespace operations
+        if family == 'scoped':
+            # one spelling asked in several scopes / classes within the same history
+            focus = rng.choice(SCOPED)
+            local = [scoped_query_src(rng, focus) for _ in range(6)]
         W.add('families', family)
         for _ in range(n):
             r = rng.random()
@@ -285,6 +367,17 @@ def main():
         [('query', "ib(lambda: True, lambda: Literal[1], 'CONF0')"), ('query', "ib(lambda: 1, lambda: Literal[True], 'CONF0')"),
          ('query', "ib(lambda: 1.0, lambda: Annotated[object, IsEqual[1]], 'CONF0')"), ('query', "sub(lambda: Literal[1], lambda: Literal[True])"),
          ('query', "theq(lambda: Literal[1], lambda: Literal[True])"), ('query', "ib(lambda: [True], lambda: list[Literal[1]], 'CONF0')")],
+        # one spelling, two scopes: relative forward references and typing.Self
+        [('query', "callm('c14_scope1', lambda: tuple[\"Node\", int], lambda M: (M.Node(), 1), 'CONF0')"),
+         ('query', "callm('c14_scope2', lambda: tuple[\"Node\", int], lambda M: (M.Node(), 1), 'CONF0')"),
+         ('query', "callm('c14_scope2', lambda: list[\"Node\"], lambda M: [M.Node()], 'CONF0')"),
+         ('query', "callm('c14_scope1', lambda: list[\"Node\"], lambda M: [M.Node()], 'CONF0')")],
+        [('query', "selfm('S1', lambda: tuple[Self, int], lambda M: (M(), 1))"), ('query', "selfm('S2', lambda: tuple[Self, int], lambda M: (M(), 1))"),
+         ('query', "selfm('S1', lambda: Optional[Self], lambda M: M())"), ('query', "selfm('S2', lambda: Optional[Self], lambda M: M())")],
+        # same-named, differently meant hints wrapped one after the other
+        [('query', "sub(lambda: int, lambda: TypeVar('T', bound=int))"), ('query', "sub(lambda: int, lambda: TypeVar('T', bound=str))"),
+         ('query', "sub(lambda: str, lambda: NewType('N', str))"), ('query', "sub(lambda: NewType('N', int), lambda: str)"),
+         ('query', "theq(lambda: TypeVar('T', bound=int), lambda: TypeVar('T', bound=str))")],
     ]
 
     def cases():
@@ -325,9 +418,12 @@ def main():
                 pos_in_steps = [i for i, st in enumerate(steps) if st == ('query', q)][-1]
                 earlier = steps[:pos_in_steps]
                 redefined_before = any(k == 'ns' and 'class K' in s_ for k, s_ in earlier)
-                if redefined_before and 'K' in q.replace('KOLD', ''):
+                # A deviation is filed under a known mechanism only if the intervention that disables exactly that
+                # mechanism makes the same history answer like the pristine interpreter (one more fork).
+                if redefined_before and 'K' in q.replace('KOLD', '') and \
+                        explained(steps, pos_in_steps, want, before_query=UNDO_REPR_DEDUP):
                     key = 'same-named-class-redefinition:stale-answer'
-                elif form in ('sub', 'theq', 'thsub'):
+                elif form in ('sub', 'theq', 'thsub') and explained(steps, pos_in_steps, want, at_start=PIN_WRAPPERS):
                     # is_subhint / TypeHint.__eq__ are memoised by id() of wrapper objects that can die
                     key = 'door:id-keyed-memo'
                 else:
